@@ -407,19 +407,24 @@ Section Deser.
       - exact (multi_go_class MNot (fun g => deser_val re_match e ens rec ku false g j) (length fs) _ _ _ _ _ H).
     Qed.
 
-    (* [good]: TypeError/ValueError (or the model declining) -- and IndexError where a positional container
-       may be reached outside every wrapper *)
-    Variable allow_idx : bool.
-    Definition good (x : exn) : bool := okx x || (allow_idx && is_index_error x).
+    (* [good]: TypeError/ValueError (or the model declining) *)
+    Definition good (x : exn) : bool := okx x.
 
     Lemma okx_good x : okx x = true -> good x = true.
-    Proof. unfold good. now intros ->. Qed.
+    Proof. exact (fun H => H). Qed.
 
     Lemma rewrap_good (r : res pyval) x :
       (forall y, r = Raise y -> good y = true) -> rewrap r = Raise x -> good x = true.
     Proof.
       intros Hr H. destruct r as [a|y]; [discriminate|]. cbn [rewrap] in H.
       destruct (is_te_ve y); inversion H; subst; [reflexivity|now apply Hr].
+    Qed.
+
+    Lemma rewrap_ve_good (r : res pyval) x :
+      (forall y, r = Raise y -> good y = true) -> rewrap_ve r = Raise x -> good x = true.
+    Proof.
+      intros Hr H. destruct r as [a|y]; [discriminate|]. cbn [rewrap_ve] in H.
+      destruct (is_ve y); inversion H; subst; [reflexivity|now apply Hr].
     Qed.
 
     Lemma build_seq_good t l x : build_seq t l = Raise x -> good x = true.
@@ -430,7 +435,9 @@ Section Deser.
     Definition dv_good (g : field) : Prop :=
       forall ku ign j x, deser_val re_match e ens rec ku ign g j = Raise x -> good x = true.
 
-    Lemma positional_good ku items : allow_idx = true -> Forall dv_good items -> forall l x,
+    (* the positional loop indexes value[i] only below the length test: it never runs out of elements *)
+    Lemma positional_good ku items : Forall dv_good items -> forall l x,
+      (length items <= length l)%nat ->
       (fix pos (fs : list field) (vs : list pyval) {struct fs} : res (list pyval) :=
          match fs with
          | [] => Ok vs
@@ -441,11 +448,36 @@ Section Deser.
              end
          end) items l = Raise x -> good x = true.
     Proof.
-      intros Hidx. induction 1 as [|g items Hg _ IH]; intros l x H; [discriminate|].
-      destruct l as [|a l]; [inversion H; unfold good; rewrite Hidx; reflexivity|].
+      induction 1 as [|g items Hg _ IH]; intros l x Hlen H; [discriminate|].
+      destruct l as [|a l]; [cbn [length] in Hlen; lia|].
       apply bind_raise in H as [H|(y & _ & H)].
       - eapply rewrap_good; [|exact H]. intros z Hz. exact (Hg _ _ _ _ Hz).
-      - apply bind_raise in H as [H|(ys & _ & H)]; [exact (IH _ _ H)|discriminate].
+      - apply bind_raise in H as [H|(ys & _ & H)]; [|discriminate].
+        apply (IH l x); [cbn [length] in Hlen; lia | exact H].
+    Qed.
+
+    Lemma positional_all_good ku items t j x : Forall dv_good items ->
+      match list_like j with
+      | None => Raise ValueError
+      | Some l =>
+          if (length l <? length items)%nat then Raise ValueError
+          else
+          r <- (fix pos (fs : list field) (vs : list pyval) {struct fs} : res (list pyval) :=
+                  match fs with
+                  | [] => Ok vs
+                  | g :: fs' =>
+                      match vs with
+                      | [] => Raise IndexError
+                      | x :: vs' => y <- rewrap (deser_val re_match e ens rec ku false g x) ;; ys <- pos fs' vs' ;; Ok (y :: ys)
+                      end
+                  end) items l ;;
+          build_seq t r
+      end = Raise x -> good x = true.
+    Proof.
+      intros HF H. destruct (list_like j) as [l|]; [|inversion H; reflexivity].
+      destruct (Nat.ltb_spec (length l) (length items)) as [Hlt|Hge]; [inversion H; reflexivity|].
+      apply bind_raise in H as [H|(r & _ & H)]; [|now apply build_seq_good in H].
+      eapply positional_good; [exact HF|exact Hge|exact H].
     Qed.
 
     Lemma each_good ku g t j x : dv_good g ->
@@ -465,11 +497,10 @@ Section Deser.
     Proof. destruct (list_like j); intro H; [now apply build_seq_good in H|inversion H; reflexivity]. Qed.
 
     (* what deserialize_single_field can raise, by induction over the declaration *)
-    Theorem deser_val_good f :
-      wf_field f = true -> (allow_idx = false -> posfree f = true) -> dv_good f.
+    Theorem deser_val_good f : wf_field f = true -> dv_good f.
     Proof.
-      induction f using field_ind'; intros Hwf Hpf ku ign j x HR; cbn [deser_val] in HR; apply guard in HR;
-        cbn [wf_field] in Hwf; cbn [posfree] in Hpf.
+      induction f using field_ind'; intros Hwf ku ign j x HR; cbn [deser_val] in HR; apply guard in HR;
+        cbn [wf_field] in Hwf.
       - (* FNumber *)
         apply bind_raise in HR as [HR|(? & _ & HR)]; [|discriminate].
         apply okx_good. eapply validate_weak_okx; [|exact HR]. exact Hwf.
@@ -480,38 +511,37 @@ Section Deser.
       - (* FNone *) inv_raise HR; reflexivity.
       - discriminate.
       - (* FEnumLit *)
-        apply bind_raise in HR as [HR|(? & _ & HR)]; [|discriminate].
-        apply okx_good. eapply validate_weak_okx; [|exact HR]. reflexivity.
-      - (* FEnumCls *) apply okx_good. eapply deser_enum_cls_okx; [reflexivity|exact HR].
+        eapply rewrap_ve_good; [|exact HR]. intros y Hy.
+        apply bind_raise in Hy as [Hy|(? & _ & Hy)]; [|discriminate].
+        apply okx_good. eapply validate_weak_okx; [|exact Hy]. reflexivity.
+      - (* FEnumCls *)
+        eapply rewrap_ve_good; [|exact HR]. intros y Hy.
+        apply okx_good. eapply deser_enum_cls_okx; [reflexivity|exact Hy].
       - (* FSeqAny *) destruct k; eapply plain_good; exact HR.
       - (* FSeqEach *) destruct k; (eapply each_good; [|exact HR]); apply IHf; assumption.
       - (* FSeqPos *)
-        destruct allow_idx eqn:Eidx; [|discriminate (Hpf eq_refl)].
         assert (HF : Forall dv_good fs).
-        { rewrite forallb_forall in Hwf. rewrite Forall_forall in *. intros g Hg. apply H; auto. discriminate. }
-        destruct k; (destruct (list_like j) as [l|]; [|inversion HR; reflexivity]);
-          (apply bind_raise in HR as [HR|(r & _ & HR)]; [|now apply build_seq_good in HR]);
-          eapply positional_good; try exact HR; auto.
+        { rewrite forallb_forall in Hwf. rewrite Forall_forall in *. intros g Hg. apply H; auto. }
+        destruct k; [exact (positional_all_good ku fs TList j x HF HR) | exact (positional_all_good ku fs TDeque j x HF HR)].
       - (* FSet, no item field *) eapply plain_good; exact HR.
       - (* FSet with an item field *) (eapply each_good; [|exact HR]); apply IHf; assumption.
       - (* FTuple *)
-        destruct allow_idx eqn:Eidx; [|discriminate (Hpf eq_refl)].
         apply andb_true_iff in Hwf as [_ Hwf].
         assert (HF : Forall dv_good fs).
-        { rewrite forallb_forall in Hwf. rewrite Forall_forall in *. intros g Hg. apply H; auto. discriminate. }
-        destruct (list_like j) as [l|]; [|inversion HR; reflexivity].
-        apply bind_raise in HR as [HR|(r & _ & HR)]; [|now apply build_seq_good in HR].
-        eapply positional_good; try exact HR; auto.
+        { rewrite forallb_forall in Hwf. rewrite Forall_forall in *. intros g Hg. apply H; auto. }
+        destruct fs as [|g0 [|g1 fs']].
+        + exact (positional_all_good ku [] TTuple j x HF HR).
+        + (* one item field: every element *)
+          eapply each_good; [|exact HR]. inversion HF; assumption.
+        + exact (positional_all_good ku (g0 :: g1 :: fs') TTuple j x HF HR).
       - (* FMapAny *) inv_raise HR; reflexivity.
       - (* FMapKV *)
         apply andb_true_iff in Hwf as [Hk Hv].
-        assert (Hpk : allow_idx = false -> posfree f1 = true) by (intro E; now apply Hpf, andb_true_iff in E).
-        assert (Hpv : allow_idx = false -> posfree f2 = true) by (intro E; now apply Hpf, andb_true_iff in E).
         destruct j; try (inversion HR; reflexivity).
         apply bind_raise in HR as [HR|(r & _ & HR)].
         + apply mapR_raise in HR as (p & _ & Hp).
-          apply bind_raise in Hp as [Hp|(? & _ & Hp)]; [exact (IHf1 Hk Hpk _ _ _ _ Hp)|].
-          apply bind_raise in Hp as [Hp|(? & _ & Hp)]; [exact (IHf2 Hv Hpv _ _ _ _ Hp)|discriminate].
+          apply bind_raise in Hp as [Hp|(? & _ & Hp)]; [exact (IHf1 Hk _ _ _ _ Hp)|].
+          apply bind_raise in Hp as [Hp|(? & _ & Hp)]; [exact (IHf2 Hv _ _ _ _ Hp)|discriminate].
         + destruct (forallb _ r); [discriminate|inversion HR; reflexivity].
       - (* FAllOf *)
         destruct (multi_go_class MAll (fun g => deser_val re_match e ens rec ku false g j) (length fs) _ _ _ _ _ HR)
@@ -529,18 +559,17 @@ Section Deser.
     Qed.
 
     Lemma deser_fields_good ku ign fds : forall kv had x,
-      (forall fd, In fd fds -> wf_field (fd_field fd) = true /\ (allow_idx = false -> posfree (fd_field fd) = true)) ->
+      (forall fd, In fd fds -> wf_field (fd_field fd) = true) ->
       deser_fields re_match e ens rec ku ign fds kv had = Raise x -> good x = true.
     Proof.
       induction fds as [|fd fds IH]; intros kv had x Hall H; cbn [deser_fields] in H.
       - destruct had; [inversion H; reflexivity|discriminate].
-      - assert (Hall' : forall fd', In fd' fds -> wf_field (fd_field fd') = true /\
-                                                 (allow_idx = false -> posfree (fd_field fd') = true))
+      - assert (Hall' : forall fd', In fd' fds -> wf_field (fd_field fd') = true)
           by (intros fd' Hin; apply Hall; now right).
         destruct (dict_get kv (PStr (fd_name fd))) as [j|]; [|eauto].
-        destruct (Hall fd (or_introl eq_refl)) as [Hwf Hpf].
+        pose proof (Hall fd (or_introl eq_refl)) as Hwf.
         assert (Hj : forall y, deser_val re_match e ens rec ku ign (fd_field fd) j = Raise y -> good y = true)
-          by (intros y Hy; exact (deser_val_good _ Hwf Hpf _ _ _ _ Hy)).
+          by (intros y Hy; exact (deser_val_good _ Hwf _ _ _ _ Hy)).
         destruct j; try (now eauto);
           (destruct (deser_val re_match e ens rec ku ign (fd_field fd) _) as [w|y] eqn:Ed;
            [apply bind_raise in H as [H|(? & _ & H)]; [eauto|discriminate]
@@ -557,19 +586,14 @@ Section Struct.
   Variable e : env.
   Variable ens : enums.
   Variable fl : dflags.
-  Variable allow_idx : bool.
   Hypothesis Hwf : env_wf e = true.
-  Hypothesis Hpf : allow_idx = false -> env_posfree e = true.
 
   Lemma class_fields_ok c : In c e ->
-    forall fd, In fd (c_fields c) ->
-    wf_field (fd_field fd) = true /\ (allow_idx = false -> posfree (fd_field fd) = true).
+    forall fd, In fd (c_fields c) -> wf_field (fd_field fd) = true.
   Proof.
-    intros Hc fd Hfd. split.
-    - unfold env_wf in Hwf. rewrite forallb_forall in Hwf. specialize (Hwf c Hc).
-      unfold class_all in Hwf. rewrite forallb_forall in Hwf. exact (Hwf fd Hfd).
-    - intro Ei. specialize (Hpf Ei). unfold env_posfree in Hpf. rewrite forallb_forall in Hpf.
-      specialize (Hpf c Hc). unfold class_all in Hpf. rewrite forallb_forall in Hpf. exact (Hpf fd Hfd).
+    intros Hc fd Hfd.
+    unfold env_wf in Hwf. rewrite forallb_forall in Hwf. specialize (Hwf c Hc).
+    unfold class_all in Hwf. rewrite forallb_forall in Hwf. exact (Hwf fd Hfd).
   Qed.
 
   Lemma class_wf c : In c e -> class_all wf_field c = true.
@@ -584,12 +608,12 @@ Section Struct.
   Qed.
 
   Theorem deser_struct_good : forall n ku cn j x,
-    deser_struct re_match e ens fl n ku cn j = Raise x -> good allow_idx x = true.
+    deser_struct re_match e ens fl n ku cn j = Raise x -> good x = true.
   Proof.
     induction n as [|n IH]; intros ku cn j x H; cbn [deser_struct] in H; [inversion H; reflexivity|].
     destruct (find_class e cn) as [c|] eqn:Ec; [|inversion H; reflexivity].
     apply find_class_in in Ec.
-    assert (Hrec : forall ku c j x, deser_struct re_match e ens fl n ku c j = Raise x -> good allow_idx x = true)
+    assert (Hrec : forall ku c j x, deser_struct re_match e ens fl n ku c j = Raise x -> good x = true)
       by exact IH.
     destruct j;
       try (destruct (if df_compact fl then compact_eligible c else None) as [fd|] eqn:Ecp;
@@ -597,8 +621,7 @@ Section Struct.
            assert (Hfd : In fd (c_fields c))
              by (destruct (df_compact fl); [now apply compact_eligible_in|discriminate]);
            apply bind_raise in H as [H|(w & _ & H)];
-           [destruct (class_fields_ok c Ec fd Hfd) as [Hw Hp];
-            exact (deser_val_good re_match e ens _ allow_idx Hrec _ Hw Hp _ _ _ _ H)
+           [exact (deser_val_good re_match e ens _ Hrec _ (class_fields_ok c Ec fd Hfd) _ _ _ _ H)
            |apply okx_good; eapply construct_okx; [|exact H]; now apply class_wf]).
     (* an object *)
     apply bind_raise in H as [H|(kw & _ & H)].
@@ -616,41 +639,27 @@ Section Top.
   Variable ens : enums.
   Variable fl : dflags.
 
-  (* no positional container outside a wrapper: every rejection is a TypeError/ValueError *)
+  (* every rejection is a TypeError/ValueError (or the model declining) *)
   Theorem deserialize_error_class n ku cn j x :
-    env_wf e = true -> env_posfree e = true ->
+    env_wf e = true ->
     deserialize re_match e ens fl n ku cn j = Raise x -> is_te_ve x = true \/ model_exn x = true.
   Proof.
-    intros Hwf Hpf H. unfold deserialize in H.
-    assert (G : good false x = true).
-    { destruct (find_class e cn) as [c|]; [|inversion H; reflexivity].
-      eapply deser_struct_good; [exact Hwf|intros _; exact Hpf|exact H]. }
-    unfold good, okx in G. cbn [andb] in G. rewrite orb_false_r in G. now apply orb_true_iff in G.
-  Qed.
-
-  (* in general the only other exception is the IndexError of value[i] (finding F9) *)
-  Theorem deserialize_error_class_all n ku cn j x :
-    env_wf e = true ->
-    deserialize re_match e ens fl n ku cn j = Raise x ->
-    is_te_ve x = true \/ model_exn x = true \/ x = IndexError.
-  Proof.
     intros Hwf H. unfold deserialize in H.
-    assert (G : good true x = true).
+    assert (G : good x = true).
     { destruct (find_class e cn) as [c|]; [|inversion H; reflexivity].
-      eapply deser_struct_good; [exact Hwf|discriminate|exact H]. }
-    unfold good, okx in G. cbn [andb] in G.
-    apply orb_true_iff in G as [G|G]; [apply orb_true_iff in G as [G|G]; auto|].
-    right. right. destruct x; try discriminate. reflexivity.
+      eapply deser_struct_good; [exact Hwf|exact H]. }
+    unfold good, okx in G. now apply orb_true_iff in G.
   Qed.
 End Top.
 
-(* Tuple[Integer, String] offered [1]: IndexError *)
-Theorem error_class_refuted : ~ error_class_statement.
+(* the full statement *)
+Theorem error_class_holds : error_class_statement.
 Proof.
-  intro H.
-  specialize (H (fun _ _ => true) [c06_cls (FTuple [c06_int; c06_str] false)] [] c06_flags 3%nat (Some true) (s2p "A")
-                (c06_doc (PList [PNum (NInt 1)])) IndexError eq_refl).
-  assert (E : deserialize (fun _ _ => true) [c06_cls (FTuple [c06_int; c06_str] false)] [] c06_flags 3 (Some true)
-                (s2p "A") (c06_doc (PList [PNum (NInt 1)])) = Raise IndexError) by (vm_compute; reflexivity).
-  destruct (H E) as [H1|H1]; discriminate H1.
+  intros re_match e ens fl n ku cn j x Hwf H. exact (deserialize_error_class re_match e ens fl n ku cn j x Hwf H).
 Qed.
+
+(* Tuple[Integer, String] offered [1] (finding F9, fixed): ValueError, no longer the IndexError of value[1] *)
+Example short_positional_document_is_value_error :
+  deserialize (fun _ _ => true) [c06_cls (FTuple [c06_int; c06_str] false)] [] c06_flags 3 (Some true)
+              (s2p "A") (c06_doc (PList [PNum (NInt 1)])) = Raise ValueError.
+Proof. vm_compute. reflexivity. Qed.
